@@ -298,6 +298,15 @@ fn run(c: &mut Case) {
                         );
                     }
                 }
+                // the arithmetic of clause 3 is undefined on non-finite estimates (a filter that has broken down
+                // numerically reports NaN): the statement is silent there, so those clocks are only counted
+                let finite = pre_o.value.is_finite()
+                    && pre_f.value.is_finite()
+                    && post_o.as_ref().map(|v| v.value.is_finite()).unwrap_or(false)
+                    && post_f.as_ref().map(|v| v.value.is_finite()).unwrap_or(false);
+                if !finite {
+                    c.inc("nonfinite_estimates_not_judged");
+                }
                 // (2)+(3) what the clock was told
                 let mut what = "untouched";
                 for call in &calls {
@@ -319,7 +328,7 @@ fn run(c: &mut Case) {
                                     detail(json!({"set_frequency": freq, "maximum": max})),
                                 );
                             }
-                            if let Ok(pf) = &post_f {
+                            if let (Ok(pf), true) = (&post_f, finite) {
                                 c.inc("frequency_changes_checked");
                                 let applied = freq - before;
                                 let want = pre_f.value + applied;
@@ -338,7 +347,7 @@ fn run(c: &mut Case) {
                         Call::Step { seconds } => {
                             c.inc("steps_checked");
                             what = "step";
-                            if let Ok(po) = &post_o {
+                            if let (Ok(po), true) = (&post_o, finite) {
                                 let want = pre_o.value + seconds;
                                 if !close(po.value, want, *seconds) {
                                     // Duration saturates at +-2^63 s: an absurdly large step is applied truncated
